@@ -345,11 +345,14 @@ theorem cache_irrelevant (a : MatcherArgs) (candLIdx candRIdx : Nat) (lRows rRow
   applyMatcherSplit_cache_irrel a candLIdx candRIdx lRows rRows lKeyIdx lAttrIdx rKeyIdx rAttrIdx o tok sim
     useCache chunk hlk hrk hstr
 
-/-- … and at table level, explicitly for both positions of the switch: the rows are the `rowSpec` rows whether the
-    cache is built (`small = true`: `len(l) + len(r) < 2·len(c)`) or not. -/
+/-- … and at table level, for both positions of the switch: `apply_matcher` builds the token cache iff
+    `len(l) + len(r) < 2·len(c)` (inside `applyMatcher`), and NOTHING is assumed here about the three row counts, so
+    the statement covers the call with the cache and the call without it: in both the rows are the `rowSpec` rows,
+    which do not mention the cache.  (This is the first part of `keeps_exactly`, restated under the name of the
+    property clause; an earlier version carried a boolean `small` naming the switch position, which the statement
+    never used — removed.) -/
 theorem cache_irrelevant_tables (a : MatcherArgs) (t : Option TokObj) (toks : TokFn) (sim : SimArg → SimArg → PyV)
-    (cpu : Int) (c l r : Frame) (small : Bool)
-    (_hswitch : small = decide (l.rows.length + r.rows.length < c.rows.length * 2))
+    (cpu : Int) (c l r : Frame)
     (hv : validateMatcher a t = .ok (c, l, r))
     (hl : ∀ cr ∈ c.rows, PyMem (cr.cell (c.colIdx a.candLKey)) (l.col a.lKey))
     (hr : ∀ cr ∈ c.rows, PyMem (cr.cell (c.colIdx a.candRKey)) (r.col a.rKey))
